@@ -114,10 +114,10 @@ class Ctx:
         return stable
 
     def paths(self, fn: FuncInfo, inline="helpers", exc_edges="try", unroll: Optional[int] = None,
-              base_exc=False, max_depth=3, bindings=None, may_raise=None, loops_for_comps=False) -> List[Path]:
+              base_exc=False, max_depth=3, bindings=None, may_raise=None, loops_for_comps=False, comps_for_loops=False) -> List[Path]:
         if unroll is None:
             unroll = 3 if self.thorough else 2
-        key = (fn.key, fn.lineno, str(inline), exc_edges, unroll, base_exc, max_depth, may_raise, loops_for_comps)
+        key = (fn.key, fn.lineno, str(inline), exc_edges, unroll, base_exc, max_depth, may_raise, loops_for_comps, comps_for_loops)
         if key in self._path_cache and bindings is None:
             return self._path_cache[key]
         base = None
@@ -137,6 +137,7 @@ class Ctx:
                        exc_edges=exc_edges, base_exc=base_exc, may_raise=may_raise,
                        stable_self_attrs=self.stable_attrs(fn))
         e.loops_for_comps = loops_for_comps
+        e.comps_for_loops = comps_for_loops
         ps = e.paths(fn, bindings)
         self.rep.note_fn(fn)
         self.rep.note_paths(len(ps))
